@@ -287,17 +287,23 @@ func (s *scheduler) envStep() bool {
 		c    *Opaque
 	}
 	var evs []ev
-	// earliest pending timer(s)
+	// earliest pending timer(s): timers due at the same instant expire together - all of them fire before any
+	// woken goroutine runs, and the scheduler then explores every order of the woken goroutines (so a request
+	// can land between a timer's expiry and its goroutine's reaction)
 	var minDue int64 = -1
 	for _, t := range s.timers {
 		if !t.fired && !t.stopped && (minDue < 0 || t.due < minDue) {
 			minDue = t.due
 		}
 	}
+	var due []*timerObj
 	for _, t := range s.timers {
 		if !t.fired && !t.stopped && t.due == minDue {
-			evs = append(evs, ev{kind: "timer", t: t})
+			due = append(due, t)
 		}
+	}
+	if len(due) > 0 {
+		evs = append(evs, ev{kind: "timer"})
 	}
 	for _, c := range s.ctxs {
 		if done, _ := c.Fields["done"].(bool); !done {
@@ -309,11 +315,16 @@ func (s *scheduler) envStep() bool {
 	if len(evs) == 0 {
 		return false
 	}
-	i := ex.chooseN("env", len(evs))
+	i := 0
+	if len(evs) > 1 {
+		i = ex.chooseN("env", len(evs))
+	}
 	e := evs[i]
 	switch e.kind {
 	case "timer":
-		s.fireTimer(e.t)
+		for _, t := range due {
+			s.fireTimer(t)
+		}
 	case "ctx":
 		ex.cancelCtx(e.c, "context deadline exceeded")
 	}
